@@ -132,22 +132,23 @@ Definition mk_proto (names : list string) (sp : spec)
     (edges : list (N * N)) (targets : list (N * bool * bool * option N)) (actions : list (N * bool))
     (exec : list (N * bool * bool * N * bool * option N)) (tape each : bool)
     (stop_handles : list N) (cont_stops : list (N * N)) (post : list (N * bool)) (abandons async : bool)
-    (res : list (N * bool * bool * bool * bool * bool * N * N)) (tidc pr : N) (keep : bool) : proto :=
+    (res : list (N * bool * bool * bool * bool * bool * N * N)) (tidc pr : N) (keep : bool) (mt : option (N * N)) : proto :=
   {| p_start := idx names (sp_start sp); p_abandon := idx names (sp_abandon sp);
      p_terminal := spec_terminal_n names sp; p_edges := edges; p_targets := targets; p_actions := actions;
      p_exec := exec; p_tape := tape; p_persist_each := each; p_stop_handles := stop_handles;
      p_cont_stops := cont_stops; p_post_actions := post; p_abandons := abandons; p_async := async;
-     p_resolve := res; p_tid_check := tidc; p_pr := pr; p_stop_keeps_payload := keep |}.
+     p_resolve := res; p_tid_check := tidc; p_pr := pr; p_stop_keeps_payload := keep; p_meta := mt |}.
 
 Definition ic_proto : proto :=
-  mk_proto ic_names ic_spec ic_edges ic_targets ic_actions ic_exec false false [] [] [] true false ic_resolve 1%N (idx_from 0%N ic_msgs "problem-report") false.
+  mk_proto ic_names ic_spec ic_edges ic_targets ic_actions ic_exec false false [] [] [] true false ic_resolve 1%N (idx_from 0%N ic_msgs "problem-report") false None.
 Definition pp_proto : proto :=
-  mk_proto pp_names pp_spec pp_edges pp_targets pp_actions pp_exec false true [] [] [] true false pp_resolve 2%N (idx_from 0%N pp_msgs "problem-report") false.
+  mk_proto pp_names pp_spec pp_edges pp_targets pp_actions pp_exec false true [] [] [] true false pp_resolve 2%N (idx_from 0%N pp_msgs "problem-report") false None.
 (* introduce: follow-ups depend on stored participants/metadata: read from the op's tape (what the service did);
    Stop of a proposal still runs handle (md.rejected); Continue of a request without recipients is an error *)
 Definition intro_proto : proto :=
   mk_proto intro_names intro_spec intro_edges intro_targets intro_actions [] true false
-           [idx_from 0%N intro_msgs "proposal"] [(idx_from 0%N intro_msgs "request", 0%N)] [] true false intro_resolve 0%N (idx_from 0%N intro_msgs "problem-report") true.
+           [idx_from 0%N intro_msgs "proposal"] [(idx_from 0%N intro_msgs "request", 0%N)] [] true false intro_resolve 0%N (idx_from 0%N intro_msgs "problem-report") true
+           (Some (idx_from 0%N intro_msgs "request", idx_from 0%N intro_opts "recipients")).
 
 (* DID Exchange / Connection: the generated targets carry the namespace ("my" = true), put in the v3 slot of the
    machine (these protocols have one version and no outbound handling); the generated action table lists the
@@ -156,9 +157,9 @@ Definition intro_proto : proto :=
 Definition ns_targets (l : list (N * bool * option N)) : list (N * bool * bool * option N) :=
   map (fun r => match r with (m, ns, x) => (m, ns, false, x) end) l.
 Definition didex_proto : proto :=
-  mk_proto didex_names didex_spec didex_edges (ns_targets didex_targets) [] [] true true [] [] didex_actions true true [] 0%N 99%N false.
+  mk_proto didex_names didex_spec didex_edges (ns_targets didex_targets) [] [] true true [] [] didex_actions true true [] 0%N 99%N false None.
 Definition legacy_proto : proto :=
-  mk_proto legacy_names legacy_spec legacy_edges (ns_targets legacy_targets) [] [] true true [] [] legacy_actions false true [] 0%N 99%N false.
+  mk_proto legacy_names legacy_spec legacy_edges (ns_targets legacy_targets) [] [] true true [] [] legacy_actions false true [] 0%N 99%N false None.
 
 (* ---- which identifier of a wire message names the protocol instance (PUBLISHED rule, written by hand) ----
    DIDComm threading: thid names the thread; a message without thid starts a thread named by its own id; a thid without
